@@ -22,12 +22,12 @@ CLAIMED = {
     design='5/C03'),
  'C18': dict(
     technique='deterministic simulation, sampler seam: one draw shared by the option-configured check and the hand-rewritten check',
-    text='Seeded search over hints mentioning float/complex/overridden classes at any depth x objects x draws: is_pep484_tower=True and hint_overrides={A: B} must give, entry point by entry point and draw by draw, the verdict of the default configuration on the hand-rewritten hint; violation_*type settings change only the class of the signal. Evidence, not proof.',
+    text='Seeded search over hints mentioning float/complex/overridden classes at any depth x objects x draws: is_pep484_tower=True and hint_overrides={A: B} must give, entry point by entry point and draw by draw, the verdict of the default configuration on the hand-rewritten hint; violation_*type settings change only the class of the signal; options are also combined (tower with overrides spelling out its own replacements and/or unrelated classes) and the unrewritten hint is checked under the plain configuration in the same process, before or after the option side. Evidence, not proof.',
     note='Trusted: the hand-rewriting function over the hint DSL (class leaves incl. inside type[...]), the sampler seam.',
     design='5/C18'),
  'C06': dict(
     technique='deterministic simulation: seeded hook-registration histories with conflict / body-raise / invalid-name faults against a declarative reference model in lock-step',
-    text='Seeded search over histories of beartype_all/_package(s)/_this_package calls and (nested, raising) beartyping() blocks; after every operation the real registry is queried for ~40 module names and compared with a three-value reference model (nearest registered ancestor, skip/exclusion, restore-on-exit, failed call changes nothing, path hook present iff registry non-empty). Evidence, not proof.',
+    text='Seeded search over histories of beartype_all/_package(s)/_this_package calls and (nested, raising) beartyping() blocks; after every operation the real registry is queried for ~40 module names and compared with a three-value reference model (nearest registered ancestor, skip/exclusion, restore-on-exit, failed call changes nothing, path hook present iff registry non-empty); three of ten histories also import on-disk modules named like the registered packages - before the first registration too - and compare what the imported module does with the model; a configuration argument that is no configuration is injected at every entry point. Evidence, not proof.',
     note='Trusted: the reference model (the property\'s sentences; reading of "restores exactly" stated in the evidence assumptions), in-place state restore between runs (violations re-confirmed in a pristine fork).',
     design='5/C06'),
  'C07': dict(
@@ -42,7 +42,7 @@ CLAIMED = {
     design='5/C08'),
  'C16': dict(
     technique='deterministic simulation: histories of interpreter runs over one on-disk tree with per-run hook configuration, simulated-mtime edits, seeded line-level interleaving of concurrent imports (incl. importlib frames) and crash points; empty-cache twin as oracle',
-    text='Seeded search over sequences of interpreter runs on a scratch package tree (hook off / 7 configurations per run, source edits with simulated mtime, 2-3 threads importing hooked and unhooked modules under a seeded schedule with pre-emption inside beartype\'s loader and importlib\'s SourceLoader.get_code, crashes at seeded steps); every module must behave as on a copy of the tree with an empty cache, and every .pyc must hold transformed code iff its name carries beartype\'s marker. Evidence, not proof.',
+    text='Seeded search over sequences of interpreter runs on a scratch package tree (hook off / 17 configurations per run incl. strategy O0 / On and the numeric tower, runs with bytecode writing switched off, source edits with simulated mtime, 2-3 threads importing hooked and unhooked modules under a seeded schedule with pre-emption inside beartype\'s loader and importlib\'s SourceLoader.get_code, crashes at seeded steps); every module must behave as on a copy of the tree with an empty cache, and every .pyc must hold transformed code iff its name carries beartype\'s marker. Evidence, not proof.',
     note='Trusted: interpreter boundary emulated by restoring beartype state and evicting the package (violations re-confirmed with one forked child per interpreter run), behavioural fingerprint as the observation, disjoint modules per thread (import-system locks avoided, not modelled).',
     design='5/C16'),
  'C17': dict(
@@ -62,12 +62,12 @@ CLAIMED = {
     design='5/C10'),
  'C11': dict(
     technique='deterministic simulation, fault injection at user-callback seams (wrapped callable, validators, instance/subclass hooks, Literal __eq__): failure on the n-th invocation placed in fast path / explanation path / later call; identity of the escaping exception as oracle. Second half (bad hints) is input-driven monitoring',
-    text='Fault half: seeded placement of a raising user callback (9 sites x 6 hint shapes x 8 exception classes incl. TypeError x invocation 1-3 x 6 entry points); the very same exception object must escape unchanged, never be swallowed into a verdict, replaced by a violation, or remembered on the next healthy call. Monitored half: 28 valid/unsupported/malformed/unhashable/non-hint objects x 7 APIs; only public beartype.roar exceptions of the right family and BeartypeWarning subclasses may escape. Evidence, not proof; the second half is input-driven and the simulator adds only generator and replay.',
+    text='Fault half: seeded placement of a raising user callback (10 sites x 6 hint shapes x 8 exception classes incl. TypeError x invocation 1-3 x 6 entry points); the very same exception object must escape unchanged, never be swallowed into a verdict, replaced by a violation, or remembered on the next healthy call. Monitored half: 28 valid/unsupported/malformed/unhashable/non-hint objects x 7 APIs; only public beartype.roar exceptions of the right family and BeartypeWarning subclasses may escape. Evidence, not proof; the second half is input-driven and the simulator adds only generator and replay.',
     note='Trusted: classification of beartype\'s own hint-validation probes of __instancecheck__/__subclasscheck__ (not counted as call-time invocations), the pool of bad hints.',
     design='5/C11'),
  'C14': dict(
     technique='deterministic simulation: seeded API-operation histories (same-named classes, deletion + explicit GC, cache clears, failing operations, define-later) with a fresh-state oracle per query under a fixed sampler draw',
-    text='Seeded search over histories of public-API operations preceding each query; every query is answered a second time after beartype\'s state has been put back to pristine and only the operations constructing its arguments replayed (same draw); answers must be equal, and a query asked twice in a row must answer identically. Violations that depend on allocation history (id() reuse) are re-confirmed by re-executing the whole batch in an identical fresh worker. Evidence, not proof.',
+    text='Seeded search over histories of public-API operations preceding each query; every query is answered a second time after beartype\'s state has been put back to pristine and only the operations constructing its arguments replayed (same draw); answers must be equal, and a query asked twice in a row must answer identically. Door queries carry their optional parameters (exception_prefix, conf) and string hints resolved against a user module whose names are rebound between queries. Violations that depend on allocation history (id() reuse) are re-confirmed by re-executing the whole batch in an identical fresh worker. Evidence, not proof.',
     note='Trusted: in-place state restoration as the "fresh interpreter" (violations re-confirmed in a really pristine fork, or by exact batch re-execution), dependency tracking of query arguments, explicit-GC-only discipline.',
     design='5/C14'),
  'C15': dict(
